@@ -957,6 +957,9 @@ def inline_unknown(trees_by_relpath, unknown, report):
             break
     for rel, tree in trees_by_relpath.items():
         if any(r == rel for (r, _) in touched):
+            # twice: temporaries of inlined bodies are substituted by the first pass, what that exposes (`not True`,
+            # decided tests) is folded by the second
+            canonicalise(tree)
             canonicalise(tree)
     return touched
 
